@@ -329,7 +329,7 @@ func runC05(c *eng.Ctx) {
 		}
 		f := c.Fn(qPersist)
 		isPage := func(v ssa.Value) bool {
-			bo, ok := eng.Unwrap(v).(*ssa.BinOp)
+			bo, ok := eng.Unwrap(eng.UpParam(v)).(*ssa.BinOp)
 			if !ok || bo.Op != token.QUO {
 				return false
 			}
